@@ -22,7 +22,7 @@ V, REPO = "/verif", "/repo"
 dst = f"{V}/seeded/{a.sid}"
 os.makedirs(dst, exist_ok=True)
 for f in ("patch.diff", "demo.py", "notes.md"):
-    if os.path.exists(os.path.join(a.src, f)):
+    if os.path.exists(os.path.join(a.src, f)) and os.path.abspath(os.path.join(a.src, f)) != os.path.abspath(os.path.join(dst, f)):
         shutil.copy(os.path.join(a.src, f), os.path.join(dst, f))
 meta = {"id": a.sid, "breaks_property": a.prop, "evaluated_at_repo_commit": subprocess.run(["git", "-C", REPO, "rev-parse", "--short", "HEAD"], capture_output=True, text=True).stdout.strip()}
 wt = f"/tmp/wt/eval_{a.sid}"
@@ -78,7 +78,16 @@ try:
 finally:
     subprocess.run(["git", "-C", REPO, "checkout", "--", "."], check=True)
     subprocess.run(["git", "-C", V, "checkout", "--", "evidence"], capture_output=True)
-meta["checks_quick" if a.tier == "quick" else "checks_thorough"] = results
+key = "checks_quick" if a.tier == "quick" else "checks_thorough"
+prev = {}
+if os.path.exists(f"{dst}/meta.json"):
+    prev = json.load(open(f"{dst}/meta.json")).get(key, {})
+    first = json.load(open(f"{dst}/meta.json")).get("first_evaluation")
+    if first is None and prev:
+        meta["first_evaluation"] = {"caught_by": json.load(open(f"{dst}/meta.json")).get("caught_by", []), key: prev}
+prev.update(results)
+meta[key] = prev
+results = prev
 meta["caught_by"] = [c for c, v in results.items() if v["exit"] == 1]
 meta["harness_errors"] = [c for c, v in results.items() if v["exit"] not in (0, 1)]
 old = {}
